@@ -8,6 +8,8 @@ from mc.core import bits
 from mc.world import make_calc, BASE
 
 PID = 'C12'
+# thread bodies (defined with engine E4, mc/checks/c10_sched.py) that exercise this property's code; explored after the parts below
+SCHED_SETS = [('fireshot||fireshot', 'line')]
 LEVEL = 'model_checking'
 ENGINE = 'E1+E3'
 TECHNIQUE = 'exhaustive enumeration of all ordered wind lists of length 0..3 over a 16-segment alphabet on the real solver with relational oracles (permutation, causality, mirror, zero wind; bitwise), all query sequences through the real wind cursor, and an independent ODE reference for segment semantics'
